@@ -151,6 +151,13 @@ func (vc *VC) frameObligations(c *Contract, args []Val, out *State) {
 	for _, t := range targets {
 		by[t.name] = append(by[t.name], t)
 	}
+	freshSeen := map[string]bool{}
+	var freshGoals []string
+	defer func() {
+		for k, g := range freshGoals {
+			vc.oblige(&State{heap: out.heap, alloc: out.alloc, cond: "true"}, "frame", fmt.Sprintf("fresh-key.%d", k+1), g, vc.fn.Pos(), nil)
+		}
+	}()
 	groups := map[string][]string{}
 	var order []string
 	emit := func(name, goal string) {
@@ -201,10 +208,12 @@ func (vc *VC) frameObligations(c *Contract, args []Val, out *State) {
 		if whole {
 			continue
 		}
-		// syntactic discharge: every modification of this heap was at a key that is
-		// literally one of the keys of this function's own assigns clauses
-		if !vc.untracked[name] {
-			all := true
+		// cheap discharge: every modification of this heap was either at a key that is
+		// literally one of the keys of this function's own assigns clauses, or at a key
+		// that is proved (once, shared by all heaps) to belong to an object allocated
+		// during the call
+		if !vc.untracked[name] && (strings.HasPrefix(name, "H!") || strings.HasPrefix(name, "A!") || strings.HasPrefix(name, "M!") || strings.HasPrefix(name, "Z!rv")) {
+			var pending []heapMod
 			for _, m := range vc.heapMods[name] {
 				found := false
 				for ki, kk := range keys {
@@ -215,14 +224,42 @@ func (vc *VC) frameObligations(c *Contract, args []Val, out *State) {
 					}
 				}
 				if !found {
-					all = false
-					break
+					pending = append(pending, m)
 				}
 			}
-			if all {
-				emit(name, "true")
-				continue
+			for _, m := range pending {
+				// the key is one of this heap's assigned keys, or belongs to a fresh object
+				var alts []string
+				for ki, kk := range keys {
+					if kk == "" {
+						continue
+					}
+					if oc := by[name][ki].cond; oc != "" {
+						alts = append(alts, and(oc, eq(m.key, kk)))
+					} else {
+						alts = append(alts, eq(m.key, kk))
+					}
+				}
+				id := name[:2] + "|" + m.key + "|" + m.site + "|" + m.cond + "|" + strings.Join(alts, ",")
+				if !freshSeen[id] {
+					freshSeen[id] = true
+					ref := m.key
+					if strings.HasPrefix(name, "A!") {
+						ref = "((_ zero_extend 16) ((_ extract 63 16) " + m.key + "))"
+					}
+					alts = append(alts, app("bvuge", ref, "alloc0"), eq(m.key, bvLit(64, 0)))
+					hyp := m.site
+					if m.cond != "" {
+						hyp = and(m.site, m.cond)
+					}
+					if hyp == "" {
+						hyp = "true"
+					}
+					freshGoals = append(freshGoals, imp(hyp, or(alts...)))
+				}
 			}
+			emit(name, "true")
+			continue
 		}
 		vc.declare(base, srt)
 		if !strings.HasPrefix(srt, "(Array ") {
